@@ -57,6 +57,7 @@ type Violation struct {
 	Backend string            `json:"backend"`
 	Known   string            `json:"known,omitempty"`
 	Observes []string         `json:"observes,omitempty"`
+	Threads bool              `json:"threads,omitempty"`
 }
 
 type AssertStat struct {
@@ -730,7 +731,7 @@ func (e *Engine) check(c *Term, label string, kind string) {
 		violated = true
 		e.pathViol = true
 		v := &Violation{Job: e.job.ID, Harness: e.job.Harness, Args: e.job.Args, Label: label, Kind: kind,
-			Inputs: e.modelInputs(m), Backend: be, Observes: append([]string{}, e.observes...)}
+			Inputs: e.modelInputs(m), Backend: be, Observes: append([]string{}, e.observes...), Threads: e.job.Threads}
 		e.res.Violations = append(e.res.Violations, v)
 	default:
 		a.Unknown++
@@ -745,7 +746,7 @@ func (e *Engine) check(c *Term, label string, kind string) {
 			e.pathViol = true
 			if _, ok := e.res.KnownHits[id]; !ok {
 				e.res.KnownHits[id] = &Violation{Job: e.job.ID, Harness: e.job.Harness, Args: e.job.Args, Label: label, Kind: kind,
-					Inputs: e.modelInputs(m), Backend: be, Known: id}
+					Inputs: e.modelInputs(m), Backend: be, Known: id, Threads: e.job.Threads}
 			}
 		case Unknown:
 			a.Unknown++
